@@ -78,8 +78,8 @@ PROPS["C01"] = {
     "gens": ["policy"],
     "streams": [CORE_STREAM, STORM_STREAM, RETRY_STREAM, SCHED_STREAM, {"name": "ks", "quick": 400, "thorough": 10000}],
     "shrink": False,
-    "claim": "Lean theorems replies_le_one and reply_on_own_stream over Model/Core for every interleaving of handler steps, any number of clients/requests/hosts/connections/streams and every fault sequence (induction over arbitrary action lists); single-request liveness answered_when_attempts_answered; tied to the code by the core (differential) and storm (oracle) e2e streams",
-    "note": "safety half proved outright; 'never none' is proved for the single-request life-cycle (Model/Retry) and otherwise checked by the ExactlyOne oracle on e2e storms; intra-handler interleavings rest on lock facts, not on a mechanised reduction theorem",
+    "claim": "Lean theorems replies_le_one and reply_on_own_stream over Model/Core for every interleaving of handler steps, any number of clients/requests/hosts/connections/streams and every fault sequence (induction over arbitrary action lists); single-request liveness answered_when_attempts_answered; liveness of the concurrent core as an invariant: unanswered_is_owned (in every reachable state a request without an answer has a frame on the wire of a live connection, or sits on a dead connection whose Closing has not run, or has a close notification due), quiescent_all_answered (nothing in flight => every accepted request has exactly one answer), accepted_send_is_owned; tied to the code by the core (differential) and storm (oracle) e2e streams",
+    "note": "safety half proved outright; 'never none' is proved as an ownership invariant of Model/Core (what remains to the runtime: the backend answers what is on a live wire or the connection dies, Closing and its notifications run) and as termination of the single-request life-cycle (Model/Retry), and checked by the ExactlyOne oracle on e2e storms; intra-handler interleavings rest on lock facts, not on a mechanised reduction theorem",
     "rule": CORE_RULE, "trusted_base": CORE_TB,
     "assumptions": ["the client stays connected", "every backend attempt is answered or its connection dropped"],
 }
@@ -122,7 +122,7 @@ PROPS["C14"] = {
     "module": "CqlVerif.Props.C14",
     "streams": [{"name": "events", "quick": 600, "thorough": 20000}],
     "shrink": False,
-    "claim": "Lean theorems registry_inv, fanout_exact, no_topology_forward, disconnect_isolated, register_other_types over Model/Events for every history of connect/register(any subset)/disconnect/events/control-connection failover; tied to proxy.go/cluster.go by the events e2e stream (fakecass injects events on the control connection; clients log EVENT frames: stream -1, content, order)",
+    "claim": "Lean theorems registry_inv, fanout_exact, no_topology_forward, disconnect_isolated, register_other_types, hand_over_conserves (the bounded channel from the control connection's reader to the event loop neither drops nor reorders, for every capacity) over Model/Events for every history of connect/register(any subset)/disconnect/events/control-connection failover; tied to proxy.go/cluster.go by the events e2e stream (fakecass injects events on the control connection; clients log EVENT frames: stream -1, content, order)",
     "note": "trusted: Lean kernel, hand-written model + e2e correspondence (sequentialised histories); events emitted while no control connection exists are outside the statement; the EVENT frame carries the cluster's negotiated version, not the client's (recorded, not judged)",
     "rule": "events: 1-4 clients, histories of up to 17 actions: connect, REGISTER for any subset of the three event types, disconnect, schema events of all five targets, topology and status events, control-connection drops followed by fail-over; compared: per client the ordered list of event ids received; distinct = distinct histories",
     "trusted_base": [KERNEL, DRIVER, HARNESS, "Model/Events.lean hand-written"],
@@ -142,12 +142,13 @@ PROPS["C07"] = {
 
 PROPS["C16"] = {
     "module": "CqlVerif.Props.C16",
-    "streams": [{"name": "reconn", "quick": 2000, "thorough": 200000}, {"name": "topo", "quick": 150, "thorough": 5000, "timeout": 7200}, RETRY_STREAM],
+    "gens": ["slot"],
+    "streams": [{"name": "reconn", "quick": 2000, "thorough": 200000}, {"name": "topo", "quick": 150, "thorough": 5000, "timeout": 7200}, {"name": "heal", "quick": 14, "thorough": 400, "timeout": 7200}, RETRY_STREAM],
     "shrink": False,
-    "claim": "Lean theorems delay_bounds (all base/max with 0<base<=max, base<2^44 ns, all attempt counts and jitters, Go int64 wrap-around modelled) + overflow_witness for the excluded range, reset_restarts, views_agree / refresh_follows_peers (cluster view, load balancer and session pools equal the last peers table for every refresh / fail-over history), outage_iff_not_connected; tied to reconnpolicy.go by a differential stream on the public API and to cluster.go/session.go/lb.go by the topo stream (real Cluster+LB+Session wired as Proxy.Connect, 40 ms refresh window, fakecass membership changes, child process so listener crashes are observed)",
-    "note": "trusted: Lean kernel, hand-written models + correspondence; timers are real-time in the tie (generous margins) and event order in the model; heartbeat/idle-timeout detection, readiness endpoint and pooled-connection reconnection are exercised by the storm/e2e streams only; negative base delays are outside (delay_bounds hypothesis)",
-    "rule": "reconn: base x max grid incl. 0, negatives, base>max, powers of two around the 2^44/2^45 overflow boundary, random 63-bit values; sequences of NextDelay/Reset/Clone up to 70 calls; the real delay must be the model's for one of the 30 jitters. topo: 1-3 initial nodes, joins, leaves, sessions on existing/non-existent keyspaces, control-connection drops, probes of the load balancer's plan and of session routing; distinct = distinct op lists",
-    "trusted_base": [KERNEL, DRIVER, HARNESS, "Model/Reconnect.lean, Model/Cluster.lean hand-written"],
+    "claim": "Lean theorems delay_bounds (all base/max with 0<base<=max, base<2^44 ns, all attempt counts and jitters, Go int64 wrap-around modelled) + overflow_witness for the excluded range, reset_restarts, views_agree / refresh_follows_peers (cluster view, load balancer and session pools equal the last peers table for every refresh / fail-over history), outage_iff_not_connected; over Model/Slot (the stayConnected loops of a pool slot and of the control connection): never_abandoned (after every turn of every history the loop is connected, has a connect timer armed, or was stopped), heals, loss_rearms, backoff_restarts_after_success (the delay armed after a re-established connection is lost again is what a fresh policy yields), armed_within_bounds (every delay a timer is ever armed with lies in [base, max]), slot_shape_ok (the shape of both loops, regenerated from the syntax tree on every run, is the one the model has); tied to reconnpolicy.go by a differential stream on the public API and to cluster.go/session.go/lb.go by the topo stream (real Cluster+LB+Session wired as Proxy.Connect, 40 ms refresh window, fakecass membership changes, child process so listener crashes are observed) and to connpool.go / cluster.go's reconnection loops by the heal stream (real proxy; the pooled or the control connection is dropped again and again and the backend turns away k attempts: when each attempt arrives is compared with the delays Model/Slot arms)",
+    "note": "trusted: Lean kernel, hand-written models + correspondence; timers are real-time in the tie (generous margins) and event order in the model; heartbeat/idle-timeout detection and the readiness endpoint are exercised by the retry/storm/e2e streams only; the heal stream measures real time: lower bounds are exact (a timer never fires early), upper bounds carry 300 ms of slack; negative base delays are outside (delay_bounds hypothesis)",
+    "rule": "reconn: base x max grid incl. 0, negatives, base>max, powers of two around the 2^44/2^45 overflow boundary, random 63-bit values; sequences of NextDelay/Reset/Clone up to 70 calls; the real delay must be the model's for one of the 30 jitters. topo: 1-3 initial nodes, joins, leaves, sessions on existing/non-existent keyspaces, control-connection drops, probes of the load balancer's plan and of session routing; distinct = distinct op lists. heal: pool / control connection x base 1-40 ms x max 0.4-3 s x 2-6 rounds of (drop, k refused attempts, one accepted), k up to 5 (pool: 12th delay of the sequence) / 10 (control); verdicts: not reconnected, delay below base, above max, back-off not restarted after a success, gap outside the model's window",
+    "trusted_base": [KERNEL, DRIVER, HARNESS, "Model/Reconnect.lean, Model/Cluster.lean, Model/Slot.lean hand-written", "Gen/SlotFacts.lean regenerated by `vh extract slot` (go/ast over connpool.go, cluster.go); Spec/SlotShape.lean the expected shape"],
     "assumptions": ["0 < base <= max and base < 2^44 ns for the bounds theorem", "the peers table read by a refresh has no duplicate hosts"],
 }
 
@@ -224,13 +225,13 @@ PROPS["C10"] = {
 
 PROPS["C17"] = {
     "module": "CqlVerif.Props.C17",
-    "gens": ["panics"],
+    "gens": ["panics", "locks"],
     "streams": [{"name": "hostile", "quick": 500, "thorough": 20000}],
     "shrink": False,
-    "claim": "Lean theorems: sites_justified / lexer_sites / stores_typed (every partial operation - index, slice, single-value type assertion, explicit panic, integer division - in proxy, proxycore, codecs, parser, with the guards on the way to it, regenerated from the typed AST of /repo on every run, has a justification; kernel-evaluated), identifier_no_panic, queryHosts_no_panic, queryHosts_hosts_nonempty, leastBusy_no_panic, fillChildren_no_panic, countArg_no_panic, planNext_no_panic, skipPositionalValues_suffix (the guarded operations cannot panic, for every input, on explicit-panic models), malformed_closed, routed_wellformed, isolation over Model/Hostile.clientStream (header + body decoders of every request opcode); tied to the code by the hostile stream: the real proxy in a child process facing generated client byte streams and hostile backends with a canary client, outcomes compared with the model",
+    "claim": "Lean theorems: sites_justified / lexer_sites / stores_typed (every partial operation - index, slice, single-value type assertion, explicit panic, integer division - in proxy, proxycore, codecs, parser, with the guards on the way to it, regenerated from the typed AST of /repo on every run, has a justification; kernel-evaluated), identifier_no_panic, queryHosts_no_panic, queryHosts_hosts_nonempty, leastBusy_no_panic, fillChildren_no_panic, countArg_no_panic, planNext_no_panic, skipPositionalValues_suffix (the guarded operations cannot panic, for every input, on explicit-panic models), malformed_closed, routed_wellformed, isolation over Model/Hostile.clientStream (header + body decoders of every request opcode); wedging: lock_order_ranked (every mutex acquisition in proxy/proxycore with another lock possibly held - may-hold analysis over typed SSA + VTA call graph, regenerated on every run - goes up in Spec/LockOrder's rank; kernel-evaluated), no_lock_deadlock (ranked acquisition excludes every cycle of goroutines waiting for each other's locks, Lemmas/Deadlock), sends_under_lock_allowed (a blocking channel send happens only under the start-up lock or the request's own lock, never under a lock other clients' requests need); nonreading_client_starves_others (Model/Fanout: the open finding C17:canary:H stated and proved about the model of the code as it is); tied to the code by the hostile stream: the real proxy in a child process facing generated client byte streams and hostile backends with a canary client, outcomes compared with the model",
     "note": "partial: nil dereferences and panics inside the pinned libraries cannot be inventoried syntactically - they are reached only through the hostile stream's generators (finding: RESULT(Void) to a topology query); the justification table's invariant / notPeerDriven entries are reviewed claims, not theorems; memory exhaustion by declared lengths above 16 MiB is out of the property's scope. Trusted: Lean kernel, extractor (go/types), hand-written models, harness",
-    "rule": "hostile: each case starts the real proxy in a child process (2 backend nodes, heart-beats on) with a canary client connected; client family: hostile strings (lone quote, empty, unbalanced, NUL, non-UTF-8, long) in every string-typed field x 5 max versions x 5 client versions, generated multi-frame byte streams of every request opcode with mutated flags / lengths (0, short, +k, negative, 16 MiB) / truncated or corrupted bodies / opcodes / version bytes / direction, frames up to 16 MiB; backend family: 80 misbehaviours (wrong stream ids, duplicates, short / garbage ERROR and RESULT bodies, every flag, wrong opcodes / direction / version, negative length, truncated, unsolicited frames and events, UNPREPARED for unknown ids) and 19 malformed system.local / system.peers answers on control reconnect; verdict: process alive, canary (handled + forwarded query, before/after, plus a late joiner) answered correctly, attacker outcome sequence = model; distinct = distinct attack",
-    "trusted_base": [KERNEL, DRIVER, HARNESS, "Gen/PanicSites.lean regenerated by `vh extract panics` (go/packages + go/types over /repo)", "Spec/PanicTable.lean hand-written justifications", "Model/Hostile.lean hand-written"],
+    "rule": "hostile: each case starts the real proxy in a child process (2 backend nodes, heart-beats on) with a canary client connected; client family: hostile strings (lone quote, empty, unbalanced, NUL, non-UTF-8, long) in every string-typed field x 5 max versions x 5 client versions, generated multi-frame byte streams of every request opcode with mutated flags / lengths (0, short, +k, negative, 16 MiB) / truncated or corrupted bodies / opcodes / version bytes / direction, frames up to 16 MiB; backend family: 80 misbehaviours (wrong stream ids, duplicates, short / garbage ERROR and RESULT bodies, every flag, wrong opcodes / direction / version, negative length, truncated, unsolicited frames and events, UNPREPARED for unknown ids) and 19 malformed system.local / system.peers answers on control reconnect; a USE whose answer the backend delays or withholds (U:) and a client that pipelines requests, never reads and stays connected (H:, the open finding); verdict: process alive, canary (handled + forwarded query, before/after, plus a late joiner) answered correctly, attacker outcome sequence = model; distinct = distinct attack",
+    "trusted_base": [KERNEL, DRIVER, HARNESS, "Gen/PanicSites.lean regenerated by `vh extract panics` (go/packages + go/types over /repo)", "Spec/PanicTable.lean hand-written justifications", "Model/Hostile.lean, Model/Fanout.lean hand-written", "Gen/LockOrder.lean regenerated by `vh extract locks` (may-hold locksets at every Lock/RLock and every blocking send; go/ssa + VTA); Spec/LockOrder.lean the ranks"],
     "assumptions": ["declared body lengths up to 16 MiB", "the attacker's connection has not negotiated compression (compressed bodies after negotiation are reported as unmodelled and checked for crash / canary only)"],
 }
 
